@@ -805,7 +805,27 @@ def gen_ref_program(rng, missing=False):
             texts.append("cMiss = (unicode(0x%x..0x%x), unicode(0x%x));" % (last, last + k, base))
             refs.append([{"k": "urange", "a": last, "b": last + k}, {"k": "unicode", "v": [base]}])
         sizes.append(2)
-    names = ["c%d" % k for k in range(ncls)] + (["cMiss"] if missing else [])
+    # explicit pseudo-glyphs: a Unicode value of the private-use area stands for a real glyph, named through the cmap
+    # (also through a code point that shares its glyph with another one, which has an automatic pseudo-glyph of its own)
+    # or by glyph id
+    npseudo = 0
+    if not missing and kind in ("plain", "dups", "post", "array4") and rng.random() < 0.5:
+        shared = [c for c in cps if sum(1 for d in cps if cmap[d] == cmap[c]) > 1 and c <= 0xFFFF]
+        for q in range(rng.randint(1, 3)):
+            inp = 0xE000 + q
+            form = rng.choice(["unicode", "uplus", "glyphid"] + (["unicode", "uplus"] if shared else []))
+            if form == "glyphid":
+                g = rng.randint(2, n - 1)
+                texts.append("cPs%d = pseudo(glyphid(%d), 0x%X);" % (q, g, inp))
+                refs.append([{"k": "pseudo", "input": inp, "gid": g}])
+            else:
+                c = rng.choice(shared) if shared and rng.random() < 0.6 else rng.choice([c for c in cps if c <= 0xFFFF])
+                texts.append(("cPs%d = pseudo(unicode(0x%x), 0x%X);" if form == "unicode" else "cPs%d = pseudo(U+%04X, 0x%X);") % (q, c, inp))
+                refs.append([{"k": "pseudo", "input": inp, "cp": c}])
+            sizes.append(1)
+            dupfree.append(True)
+            npseudo += 1
+    names = ["c%d" % k for k in range(ncls)] + (["cMiss"] if missing else []) + ["cPs%d" % q for q in range(npseudo)]
     prog.class_order = names
     for nm in names:
         prog.classes[nm] = []
@@ -817,6 +837,8 @@ def gen_ref_program(rng, missing=False):
         items = []
         if missing and rng.random() < 0.7:
             items.append(Item(cls="cMiss"))
+        elif npseudo and rng.random() < 0.6:
+            items.append(Item(cls="cPs%d" % rng.randrange(npseudo)))
         elif rng.random() < 0.3:
             items.append(Item(cls=names[rng.randrange(ncls)]))
         if outs and dupfree[a] and rng.random() < 0.8:
